@@ -5,6 +5,7 @@ CNV-1 every convolution-based product of poulpy_core::operations::glwe splits it
       and radix (piecewise-linear identity; `lo` is negative when cnv_offset < base2k because the kernels take no negative limb offset)
 CNV-2 squaring, multiplying and the accumulating form derive (hi, lo) from the same expressions (sibling agreement of glwe_tensor_square_apply / glwe_tensor_apply /
       glwe_tensor_apply_add_assign)
+CNV-3 X_assign and X size the accumulator handed to the convolution kernel from the same quantities (first operand size, second operand size / length, offset)
 RAD-1 / RAD-2 (rad.py) relinearisation converts the tensor into the key radix exactly when those two radices differ; no radix-asserting operation is called with operands
       the dominating guards make different
 Not decided: the convolution kernels themselves (C07), noise, relinearisation arithmetic beyond the radix decisions, the masks of partially used limbs.
@@ -108,6 +109,86 @@ def cnv1(p, res):
     return n, shapes
 
 
+def cnv3(p, res):
+    """in-place and out-of-place forms of one convolution product (X_assign(res, b) == X(res, res, b)) size the accumulator they hand to the convolution kernel from the same
+    quantities: first operand's limb count, second operand's limb count / length, convolution offset.  (A product accumulator sized from the result alone cuts the low product limbs
+    before the intra-limb shift of the normalisation.)  Dependence sets are compared after mapping the operands to roles."""
+    n = 0
+    byname = {}
+    for f, ks, ns, off_param in sites(p):
+        byname[f.name] = (f, ks)
+    for name, (fa, ka) in sorted(byname.items()):
+        if not name.endswith("_assign") or name[:-7] not in byname:
+            continue
+        fo, ko = byname[name[:-7]]
+        n += 1
+
+        def dep_roles(f, ks, inplace):
+            flow = Flow(f, transparent=T + ("data", "data_mut"))
+            plain = Flow(f)
+            pn = f.param_names()
+            # operands in declaration order: GLWE-like parameters that reach a convolution kernel argument
+            order = []
+            roles = {}
+            for l in sorted(pn):
+                if pn[l] in ("self", "scratch", "cnv_offset"):
+                    continue
+                order.append(l)
+            # out-of-place: (res, a, b...) -> res is only a destination; in-place: (res, b...) -> res is the first operand
+            ops = [l for l in order if not (pn[l] == "res" and not inplace)]
+            ops = [l for l in ops if not pn[l].endswith("effective_k")]
+            for i, l in enumerate(ops):
+                roles[l] = "operand%d" % (i + 1)
+            for l in pn:
+                if pn[l] == "cnv_offset":
+                    roles[l] = "offset"
+            out = set()
+            seen = set()
+
+            def walk(op, depth=0):
+                if depth > 12 or op[0] not in ("c", "m"):
+                    return
+                for r in plain.op_roots(op):
+                    key = (r[0], r[1], r[2] if len(r) > 2 else None)
+                    if key in seen:
+                        continue
+                    seen.add(key)
+                    if r[0] == "param":
+                        if r[1] in roles:
+                            out.add(roles[r[1]])
+                    elif r[0] == "bin":
+                        for o in f.blocks[r[1]]["s"][r[2]][2]["o"]:
+                            walk(o, depth + 1)
+                    elif r[0] == "call":
+                        for o in f.blocks[r[1]]["t"]["a"]:
+                            walk(o, depth + 1)
+                    elif r[0] == "agg":
+                        for o in f.blocks[r[1]]["s"][r[2]][2].get("o", []):
+                            walk(o, depth + 1)
+            sizes = []
+            for bi, t in ks:
+                # the kernel's result operand (argument 2) is the payload of a take_* call: its size is the last argument of the take
+                for r in flow.op_roots(t["a"][2]):
+                    if r[0] == "call":
+                        t2 = f.blocks[r[1]]["t"]
+                        if (f.callee_def(t2) or {}).get("n", "").startswith("take_") and t2["a"]:
+                            sizes.append(t2["a"][-1])
+            for o in sizes:
+                walk(o)
+            return out, bool(sizes)
+        da, oka = dep_roles(fa, ka, True)
+        do, oko = dep_roles(fo, ko, False)
+        if not oka or not oko:
+            res.undec("CNV-3", "%s / %s: the accumulator is not a scratch temporary" % (fa.pretty, fo.name))
+        elif da == do:
+            res.ok("CNV-3", {"pair": "%s / %s" % (fo.name, fa.name), "accumulator_size_depends_on": sorted(da)})
+        else:
+            res.bad("CNV-3", fa.pretty, "accumulator-size-dependence",
+                    "%s sizes the accumulator of its convolution from %s, the out-of-place form %s from %s: the in-place form keeps another number of product limbs (limbs of the "
+                    "product below the result are cut before the intra-limb shift)" % (fa.pretty, sorted(da), fo.name, sorted(do)), site=fa.where())
+    return n
+
+
 def run(res, tier):
     res.level = "other"
     res.explanation = ("Only the split of the convolution offset is decided: each of the seven convolution-based products of poulpy-core derives a limb offset and an intra-limb offset from "
@@ -116,6 +197,7 @@ def run(res, tier):
                        "them from the same expressions. The convolution kernels, masks, relinearisation and noise are not decided.")
     res.rule("CNV-1", "hi * base2k + lo + base2k == cnv_offset on every path; all cnv_* calls of a product receive hi, all vec_znx_big_normalize calls receive lo")
     res.rule("CNV-2", "glwe_tensor_square_apply, glwe_tensor_apply and glwe_tensor_apply_add_assign derive (hi, lo) from the same expressions")
+    res.rule("CNV-3", "in-place / out-of-place forms of a convolution product size the product accumulator from the same quantities (operand limb counts, offset)")
     res.rule("RAD-1", "a cross-radix conversion skipped / taken on a radix comparison is guarded by the comparison of exactly its input and output radices (relinearisation)")
     res.rule("RAD-2", "no call of an operation asserting equal radices of two arguments sits on a branch whose guards imply that they differ")
     res.assumptions = ["cnv_* kernels shift the product by `hi` limbs and vec_znx_big_normalize by `lo` bits (C07 / C08)", "a convolution output sits one limb below the sum of the operand positions (the `+ base2k` of the law is read off the code, the same in all seven products)"]
@@ -138,6 +220,8 @@ def run(res, tier):
         res.rule("WR-2", "raw column offsets of the convolution kernels: an index into X.raw() computed from a column argument uses the limb count of X itself")
         n2c = wr2c(p, res)
         res.floor("WR-2", "raw column offsets", n2c, 2)
+        n3 = cnv3(p, res)
+        res.floor("CNV-3", "in-place / out-of-place product pairs", n3, 2)
         from . import rad
         nr1 = rad.rad1(p, res, RAD_PREFIXES)
         res.floor("RAD-1", "guarded radix conversions of the products", nr1, 2)
